@@ -141,7 +141,12 @@ def run_case(ctx, case, model=True):
         for nid, comps_ in R.nodes_of(plant, side):
             cobs = []
             for comp in comps_:
-                cr = R.component_result(comp, dt, spec_by)
+                try:
+                    cr = R.component_result(comp, dt, spec_by)
+                except Exception as e:
+                    # the system gave totals for these factors, so every component must be able to give its part
+                    ctx.fail("predicate", "component-refuses-what-the-system-totalled", f"{side} {comp.name}: {type(e).__name__}: {e}", where)
+                    return False
                 cobs.append(R.observe_result(cr))
                 if model and ctx.model_available and id(comp) in spec_of and not (side == "mechanical" and spec_of[id(comp)]["kind"] == "pti_pto"):
                     component_figures(ctx, comp, spec_of[id(comp)], dt, spec_by, where)
